@@ -252,7 +252,7 @@ func OwnLayers(n *gen.Node) []Layer {
 		l := libL("telemetrykeys", "withTelemetry")
 		l.Keys = []string{}
 		out = []Layer{l}
-	case "safedetails":
+	case "safedetails", "safedetails0":
 		out = []Layer{libL("safedetails", "withSafeDetails")}
 	case "telemetry":
 		l := libL("telemetrykeys", "withTelemetry")
@@ -358,6 +358,8 @@ func OwnLayers(n *gen.Node) []Layer {
 		out = []Layer{st(), libL("join", "joinError")}
 	case "joinbare":
 		out = []Layer{libL("join", "joinError")}
+	case "multiis":
+		out = []Layer{harnessL("*gen.MultiIs")}
 	case "gojoin":
 		out = []Layer{L("*errors.joinError", "errors")}
 	case "goerrorfmulti":
@@ -445,7 +447,7 @@ func Text(n *gen.Node) string {
 		return S[0] + " " + S[1] + ": " + k(0)
 	case "safefmtwrap":
 		return "safe " + S[0] + ": " + k(0)
-	case "withstack", "hint", "detail", "safedetails", "telemetry", "domain", "issuelink", "tags", "tagsafe",
+	case "withstack", "hint", "detail", "safedetails", "safedetails0", "telemetry", "domain", "issuelink", "tags", "tagsafe",
 		"assertion", "mark", "markempty", "secondary", "http", "grpc", "pkgstack", "emptywrap", "wrapempty",
 		"hintf", "detailf", "telemetry0", "combine", "issuelinkd", "issuelinku", "domainnone", "domainraw", "withstackdeep":
 		return k(0)
@@ -489,6 +491,12 @@ func Text(n *gen.Node) string {
 		r := S[0]
 		for i := range n.Kids {
 			r += " / " + k(i)
+		}
+		return r
+	case "multiis":
+		r := S[0]
+		for i := range n.Kids {
+			r += " & " + k(i)
 		}
 		return r
 	case "multireg":
